@@ -7,6 +7,20 @@ ROOT = os.path.dirname(os.path.dirname(os.path.abspath(__file__)))
 ALL = [f'C{i:02d}' for i in range(1, 21)]
 
 CHECKS = {
+    'C02': dict(
+        technique='TLA+ specs ForEachClient.tla (pmap blockify/mask/yield machine, jit donate machine with buffer table, free '
+                  'client program) and BackendChoice.tla (thread-local selection, all interleavings) model-checked by TLC; '
+                  'every enumerated profile executed on the real jit/debug/pmap backends (1-8 forced host devices), '
+                  'every emitted thread schedule replayed on real threads with a baton; larger random runs validated as '
+                  'traces by TLC',
+        text='TLC proves exactly-once, equality with the sequential fold, invisibility of padding clients/batches and '
+             'liveness of caller buffers for every batch-count profile and device count in the bounds, and thread '
+             'isolation / restore-on-exit for every interleaving of two thread programs; each profile is executed on '
+             'the real backends with a JAX realisation of the free program whose state carries the consumed tokens and '
+             'is poisoned by a padding batch; each schedule is executed on real threads.',
+        note='Forced host CPU devices stand in for accelerators; buffer donation of the jit backend is a design-level '
+             'statement on this platform (caller arrays are inspected after every call).',
+        design='5/C02'),
     'C03': dict(
         technique='TLA+ spec SeqBatch.tla (slicing loop + bucket loop) model-checked against declarative definitions; '
                   'every TLC final state replayed into real ClientDataset.batch/padded_batch; random larger real '
